@@ -88,6 +88,20 @@ func dotObs(text string) (bool, []string, [][2]string) {
 
 func init() {
 	// (model (ident-key ...) kind (filter ...)) -> observations
+	// (model idents ...) -> fan table of the package-merged graph: ((name fan-in fan-out total) ...)
+	register("C13.fan", func(in Sx) Sx {
+		deps := modelOf(in.Nth(0))
+		identMap := map[string]core_domain.CodeDataStruct{}
+		for _, k := range in.Nth(1).StrList() {
+			identMap[k] = core_domain.CodeDataStruct{}
+		}
+		g := arch.NewArchApp().Analysis(deps, identMap)
+		rows := []Sx{}
+		for _, f := range g.SortedByFan(tequila.MergePackageFunc) {
+			rows = append(rows, L(A(f.Name), N(f.FanIn), N(f.FanOut), N(f.FanIn+f.FanOut)))
+		}
+		return L(rows...)
+	})
 	register("C13", func(in Sx) Sx {
 		deps := modelOf(in.Nth(0))
 		identMap := map[string]core_domain.CodeDataStruct{}
